@@ -40,6 +40,8 @@ def run(cx):
     r2_r3(cx)
     r4(cx)
     from rules.common import hook_discipline
+    cx.rule("C19.R6", "K1", "every tick examines every task of the process that carries a timeout rule: selected by the presence of the rule only, visited one by one without early exit, a failing rule is reported and the pass goes on")
+    r6_tick_pass(cx)
     cx.rule("C19.R5", "K3", "hook registration discipline: timeout rules are stored only under the Timeout key and nothing else is (justifies the pruning used by R2/R3)")
     hook_discipline(cx, "C19.R5")
     cx.floor("C19.R5", 8)
@@ -238,3 +240,38 @@ def _unit_regex_ok(h):
     else:
         return False
     return letters == set("smhd")
+
+
+
+def r6_tick_pass(cx):
+    from rules.c13 import pass_shape
+    m = cx.m
+    pa = Prov(m, "alias")
+    f = m.one(r"^acts::scheduler::process::process::Process::do_tick$")
+    ft = [c for c in f.calls() if re.search(r"Process::find_tasks(::<.*>)?$", c.q)]
+    if len(ft) != 1:
+        raise Anchor("do_tick: expected one find_tasks call")
+    # the selection closure: only `hooks().contains_key(Timeout)`
+    clos = pa.root(f, ft[0].args[1])
+    sel_ok = False
+    if clos[0] == "closure" and clos[1] in m.fns:
+        g = m.fns[clos[1]]
+        names = [short_name(c.q) for c in g.calls() if not (c.callee.get("decl") or "").startswith("std::ops::Deref")]
+        has = any("contains_key" in x for x in names) and any(x.endswith("Task::hooks") for x in names)
+        extra = [x for x in names if not ("contains_key" in x or x.endswith("Task::hooks"))]
+        no_branch = all(b["t"][0] != "switch" for b in g.blocks)
+        sel_ok = has and not extra and no_branch
+    cx.ob("C19.R6", "do_tick:selection", sel_ok, "do_tick selects the tasks by `hooks().contains_key(Timeout)` and nothing else (no state or kind filter that could hide an open task)", ft[0].loc)
+    shapes = pass_shape(m, pa, f, ft[0])
+    ok = all(v in ("loop-ok", "for_each") for v, _, _ in shapes)
+    cx.ob("C19.R6", "do_tick:every-task", ok, "do_tick visits each selected task (%s)" % ", ".join("%s %s" % (v, d) for v, d, _ in shapes), shapes[0][2].loc)
+    # the per-task body does not propagate: do_tick has no Err exit
+    errs = [k for _, k in f.exit_defs() if k.startswith("ERR")]
+    body_ok = not errs
+    for v, _, x in shapes:
+        if v == "for_each":
+            cl = pa.root(f, x.args[1])
+            if cl[0] == "closure" and cl[1] in m.fns:
+                body_ok = body_ok and not m.fns[cl[1]].returns_result()
+    cx.ob("C19.R6", "do_tick:failure-local", body_ok, "a failing timeout rule of one task does not end the pass (no error leaves the per-task body)", f.loc())
+    cx.floor("C19.R6", 3)
